@@ -217,7 +217,7 @@ class Runner:
         # several calls = several traces; a stream handed over mid-way takes one of two paths depending on its tail's digest
         single_calls = op['op'] == 'addPacked' and ((op.get('via') == 'single' and len(op['cs']) > 1) or op.get('via') in ('midstream', 'nested'))
         # (stray files in duplicates/ are not part of the Level-C model: with them present, clean and delete are not traced)
-        if (getattr(self, 'check_trace', False) and not single_calls and op['op'] in ('addLoose', 'addPacked', 'packAll', 'delete', 'repackOne', 'clean')
+        if (getattr(self, 'check_trace', False) and not single_calls and op['op'] in ('addLoose', 'addPacked', 'packAll', 'delete', 'repackOne', 'repack', 'clean')
                 and not (pre.duplicates and op['op'] in ('delete', 'clean'))):
             from .iotrace import Tracer  # pylint: disable=import-outside-toplevel
 
@@ -622,6 +622,20 @@ class Runner:
             real_toks, _ = iotrace.canon(tracer.events, lambda k: self._cid_or(rc, k), {r[1] for r in pre.rows})
             order = [int(t.split(':')[1]) for t in real_toks if t.startswith('looseUnlink:')]
             args = f'clean {show_nats(order)}'
+        elif op['op'] == 'repack':
+            # the packs are repacked in the order of a directory listing: taken from the trace
+            real_toks, _ = iotrace.canon(tracer.events, lambda k: self._cid_or(rc, k), {r[1] for r in pre.rows})
+            seen = []
+            for t_ in real_toks:
+                if t_.startswith(('pkRead:', 'pkUnlink:')):
+                    p_ = int(t_.split(':')[1])
+                    if p_ not in seen and p_ != iotrace.TMP:
+                        seen.append(p_)
+            zs_of = {}
+            for part in line.split(' ')[5].split('|') if line.split(' ')[5] != '-' else []:
+                p_, _o, z_ = part.split(':')
+                zs_of[int(p_)] = z_
+            args = 'repackAll ' + ('|'.join(f'{p_}:{zs_of.get(p_, "-")}' for p_ in seen) if seen else '-')
         else:
             args = self.ir_args(rc, op, line)
         if args is None:
